@@ -33,9 +33,9 @@ InRange(o, i) == i >= 0 /\ i < N(o)
 Blank == {"Whitespace", "Annotation", "LineAnnotation"}
 Closers == {"EndGroup", "EndExpression", "EndSideEffect"}
 TokOf(o, i) == { k \in DOMAIN o.toks : o.toks[k].row = Node(o, i).row /\ o.toks[k].col = Node(o, i).col }
-ClosesNext(o, k) == LET later == { j \in DOMAIN o.toks : j > k /\ o.toks[j].ty \notin Blank \cup {"Subexpression"} } IN
+ClosesNext(o, k) == LET later == { j \in DOMAIN o.toks : j > k /\ o.toks[j].ty \notin Blank \cup {"Subexpression", "ExpressionSeparator"} } IN
                     later = {} \/ o.toks[CHOOSE j \in later : \A j2 \in later : j <= j2].ty \in Closers
-UnlinkedSeparator(o, i) == /\ Node(o, i).d = "Subexpression"
+UnlinkedSeparator(o, i) == /\ Node(o, i).d \in {"Subexpression", "ExpressionSeparator"}
                            /\ i # o.root
                            /\ \A j \in 0..(N(o) - 1) : Node(o, j).l # i /\ Node(o, j).r # i
                            /\ \E k \in TokOf(o, i) : ClosesNext(o, k)
